@@ -3,6 +3,7 @@ package main
 import (
 	"fmt"
 	"go/token"
+	"go/types"
 	"strings"
 
 	"golang.org/x/tools/go/ssa"
@@ -145,39 +146,80 @@ func runC13(c *Ctx, r *Report) {
 	// the 16 slots start empty for every file: per-file decoder state (perfile.go)
 	perFileRule(c, r, "C13-R2-per-file-slots", []string{"defmsgs"}, "a data record of a local type the file never defined is decoded with the previous file's definition instead of being an error")
 	// ---- R1: dispatch partition ----------------------------------------------------------
-	fn := c.ssaFn(c.fn(c.fit, "decoder.decodeFileData"))
+	fn := c.recordDispatchFn()
 	if fn == nil {
-		r.fail("C13-R1-dispatch", "decodeFileData", "", "not found")
+		r.fail("C13-R1-dispatch", "record-dispatch", "", "the function that dispatches on the record header (the caller of parseDefinitionMessage other than parseFileIdMsg) was not found or is not unique")
 		return
 	}
-	var rb *ssa.Call
-	for _, ci := range allCalls(fn) {
-		if f := ci.Common().StaticCallee(); f != nil && f.Name() == "readByte" {
-			rb, _ = ci.(*ssa.Call)
-		}
-	}
-	if rb == nil {
-		r.fail("C13-R1-dispatch", "decodeFileData/readByte", "", "record header is not obtained through readByte")
-		return
-	}
+	// the header byte: the result of readByte in this function, or a byte parameter that every caller
+	// fills with the result of readByte on its error-free edge
 	var bvar ssa.Value
-	for _, ref := range *rb.Referrers() {
-		if ex, ok := ref.(*ssa.Extract); ok && ex.Index == 0 {
-			bvar = ex
-		}
-	}
-	// dispatch starts at the err == nil successor
 	var start *ssa.BasicBlock
-	if ifi, ok := rb.Block().Instrs[len(rb.Block().Instrs)-1].(*ssa.If); ok {
-		if x, nn, ok := nilTest(ifi.Cond); ok && x != nil {
-			start = rb.Block().Succs[1]
-			if !nn {
-				start = rb.Block().Succs[0]
+	var rb *ssa.Call
+	headerRead := func(f *ssa.Function) (*ssa.Call, ssa.Value, *ssa.BasicBlock) {
+		var call *ssa.Call
+		for _, ci := range allCalls(f) {
+			if g := ci.Common().StaticCallee(); g != nil && g.Name() == "readByte" {
+				call, _ = ci.(*ssa.Call)
 			}
 		}
+		if call == nil {
+			return nil, nil, nil
+		}
+		var v ssa.Value
+		for _, ref := range *call.Referrers() {
+			if ex, ok := ref.(*ssa.Extract); ok && ex.Index == 0 {
+				v = ex
+			}
+		}
+		var st *ssa.BasicBlock
+		if ifi, ok := call.Block().Instrs[len(call.Block().Instrs)-1].(*ssa.If); ok {
+			if x, nn, ok := nilTest(ifi.Cond); ok && x != nil {
+				st = call.Block().Succs[1]
+				if !nn {
+					st = call.Block().Succs[0]
+				}
+			}
+		}
+		return call, v, st
+	}
+	rb, bvar, start = headerRead(fn)
+	if rb == nil {
+		// header passed in as a parameter
+		okCallers, nCallers := true, 0
+		var param *ssa.Parameter
+		for _, p := range fn.Params {
+			if bt, ok := p.Type().Underlying().(*types.Basic); ok && bt.Kind() == types.Uint8 {
+				param = p
+			}
+		}
+		for _, caller := range c.moduleFuncs() {
+			for _, ci := range allCalls(caller) {
+				if ci.Common().StaticCallee() != fn {
+					continue
+				}
+				nCallers++
+				crb, cv, cst := headerRead(caller)
+				okArg := false
+				for _, a := range ci.Common().Args {
+					if cv != nil && a == cv {
+						okArg = true
+					}
+				}
+				if crb == nil || !okArg || cst == nil || !(cst == ci.Block() || cst.Dominates(ci.Block())) {
+					okCallers = false
+				}
+				rb = crb
+			}
+		}
+		if param == nil || !okCallers || nCallers == 0 || len(fn.Blocks) == 0 {
+			r.fail("C13-R1-dispatch", fn.Name()+"/readByte", "", "record header is not obtained through readByte (neither here nor, for a header parameter, on the error-free edge in every caller)")
+			return
+		}
+		bvar, start = param, fn.Blocks[0]
 	}
 	if start == nil || bvar == nil {
-		r.undecided("C13-R1-dispatch", "decodeFileData/shape", c.pos(rb.Pos()), "cannot find the dispatch chain after the header read")
+		r.undecided("C13-R1-dispatch", fn.Name()+"/shape", c.pos(rb.Pos()), "cannot find the dispatch chain after the header read")
 		return
 	}
 	counts := map[string]int{}
@@ -194,9 +236,9 @@ func runC13(c *Ctx, r *Report) {
 	for _, cls := range []string{"compressed", "definition", "data"} {
 		exp := map[string]int{"compressed": 128, "definition": 64, "data": 64}[cls]
 		if bad, ok := firstBad[cls]; ok {
-			r.fail("C13-R1-dispatch", "decodeFileData/"+cls, c.pos(rb.Pos()), bad)
+			r.fail("C13-R1-dispatch", fn.Name()+"/"+cls, c.pos(rb.Pos()), bad)
 		} else {
-			r.check(counts[cls] == exp, "C13-R1-dispatch", "decodeFileData/"+cls, c.pos(rb.Pos()), fmt.Sprintf("all %d %s header bytes reach the %s parser", exp, cls, cls), "class count mismatch")
+			r.check(counts[cls] == exp, "C13-R1-dispatch", fn.Name()+"/"+cls, c.pos(rb.Pos()), fmt.Sprintf("all %d %s header bytes reach the %s parser", exp, cls, cls), "class count mismatch")
 		}
 	}
 	r.set("header_bytes_evaluated", 256)
@@ -612,6 +654,15 @@ func c13Fresh(c *Ctx, r *Report) {
 			}
 		}
 	}
+	if !(okArch && okDefault) {
+		// alternative spelling: the order comes from a lookup helper, order, ok := f(archByte), the
+		// store is under ok; the helper's path terms give the mapping for every byte value
+		if m, okH := c13ArchHelper(c, fn); okH {
+			okArch, okDefault = true, true
+			got = m
+			nArch = 1
+		}
+	}
 	r.check(okArch && okDefault, "C13-R3-byte-order", "parseDefinitionMessage/arch-switch", c.pos(fn.Pos()), "architecture byte 0 -> little endian, 1 -> big endian, every other value is an error; set per definition", fmt.Sprintf("byte order of a definition is not set by the two-constant switch with an error default (stores: %d, mapping: %v, others rejected: %v)", nArch, got, okDefault))
 	_ = dmAlloc
 }
@@ -661,4 +712,80 @@ func freshResult(call *ssa.Call, idx int, depth int) bool {
 		}
 	}
 	return n > 0
+}
+
+// c13ArchHelper: dm.arch = extract #0 of a call h(archByte) of a loop-free module function whose
+// path terms are exactly {arch == 0 -> (le, true); arch == 1 -> (be, true); otherwise -> (_, false)},
+// the store (and every success return) being under the true edge of extract #1, and the argument
+// being the byte read by readByte on its error-free edge.
+func c13ArchHelper(c *Ctx, fn *ssa.Function) (map[int64]string, bool) {
+	var st *ssa.Store
+	n := 0
+	for _, b := range fn.Blocks {
+		for _, ins := range b.Instrs {
+			if s, ok := ins.(*ssa.Store); ok && strings.HasSuffix(pathOf(s.Addr), ".arch") {
+				st = s
+				n++
+			}
+		}
+	}
+	if n != 1 {
+		return nil, false
+	}
+	ex, ok := st.Val.(*ssa.Extract)
+	if !ok || ex.Index != 0 {
+		return nil, false
+	}
+	call, ok := ex.Tuple.(*ssa.Call)
+	if !ok || call.Common().StaticCallee() == nil || len(call.Common().Args) != 1 {
+		return nil, false
+	}
+	// argument: readByte result
+	ax, ok := call.Common().Args[0].(*ssa.Extract)
+	if !ok {
+		return nil, false
+	}
+	rb, ok := ax.Tuple.(*ssa.Call)
+	if !ok || rb.Common().StaticCallee() == nil || rb.Common().StaticCallee().Name() != "readByte" {
+		return nil, false
+	}
+	// store and every success return under the ok flag
+	var okFlag ssa.Value
+	for _, ref := range *call.Referrers() {
+		if e, isE := ref.(*ssa.Extract); isE && e.Index == 1 {
+			okFlag = e
+		}
+	}
+	if okFlag == nil || !domByBoolEdge(fn, st.Block(), true, func(v ssa.Value) bool { return v == okFlag }) {
+		return nil, false
+	}
+	for _, ret := range c.successReturns(fn) {
+		if !domByBoolEdge(fn, ret.Block(), true, func(v ssa.Value) bool { return v == okFlag }) {
+			return nil, false
+		}
+	}
+	o := symPaths(call.Common().StaticCallee(), nil, 1)
+	if o.why != "" {
+		return nil, false
+	}
+	got := map[int64]string{}
+	for _, p := range o.paths {
+		if len(p.rets) != 2 {
+			return nil, false
+		}
+		switch {
+		case p.rets[1] == "false":
+			// must be the path on which the byte is neither 0 nor 1
+			if strings.Join(p.conds, " ") != "F:(== 0 p0) F:(== 1 p0)" {
+				return nil, false
+			}
+		case p.rets[1] == "true" && p.rets[0] == "(iface *g:le)" && strings.Join(p.conds, " ") == "T:(== 0 p0)":
+			got[0] = "le"
+		case p.rets[1] == "true" && p.rets[0] == "(iface *g:be)" && (strings.Join(p.conds, " ") == "F:(== 0 p0) T:(== 1 p0)" || strings.Join(p.conds, " ") == "T:(== 1 p0)"):
+			got[1] = "be"
+		default:
+			return nil, false
+		}
+	}
+	return got, len(got) == 2 && len(o.paths) == 3
 }
